@@ -62,7 +62,135 @@ class C12(Prop):
                 "ties": draw(st.lists(st.integers(0, 7), max_size=8)),
             }
 
-        return case()
+        from .c08 import C08
+
+        def contend(p):
+            spec, snap, busy, d = p
+            if busy:
+                # one worker, several lineages, slow bodies: what a handler re-emits has to QUEUE behind the other lineages
+                spec = json.loads(json.dumps(spec))
+                b = spec["steps"][1]
+                b["workers"] = 1
+                b["acts"]["E0"][0] = ["sleep", d]
+                send = spec["steps"][0]["acts"]["GStart"][0]
+                send[2] = max(send[2], 2)
+                for s_ in spec["steps"]:
+                    if s_.get("role") == "catch_error" and (s_["for_steps"] is None or "b" in s_["for_steps"]) and busy > 1:
+                        s_["acts"]["StepFailedEvent"] = [["sleep", 0], ["resend_failed"], ["ret", None]]
+                        s_["action"] = "resend"
+            return {"handler": spec, "snap": snap}
+
+        handler = st.tuples(C08().strategy(tier), st.sampled_from([0, 1, 1, 2, 2, 3, 4, 5, 6, 8]), st.sampled_from([0, 0, 1, 2]), st.sampled_from([1, 2, 3])).map(contend)
+        return st.one_of(case(), case(), case(), handler)
+
+    # ------------------------------------------------------------------ @catch_error programs across a snapshot
+    def run_handler_case(self, case):
+        """C08's program family (failing steps, @catch_error handlers with recovery budgets) snapshotted at a generated instant:
+        the recovery budget of a lineage is part of what a resumed run must remember."""
+        from .c08 import C08
+
+        r = CaseResult()
+        c8 = C08()
+        spec = c8.prepare(case["handler"])
+        try:
+            ref = genwf.run_case_program(json.loads(json.dumps(spec)), probe=False)
+        except Runaway:
+            raise RuntimeError("inconclusive reference run") from None
+        spec2 = json.loads(json.dumps(spec))
+        spec2["snap"] = case["snap"]
+        try:
+            rec = genwf.run_case_program(spec2, probe=False)
+        except Runaway:
+            r.v("resumed_run_runaway", handler_program=True)
+            return r
+        r.classes.append("handler_program")
+        if not rec.resumed:
+            r.classes.append("finished_before_snapshot")
+            return r
+        handlers = {s_["name"]: s_ for s_ in spec["steps"] if s_.get("role") == "catch_error"}
+        parent = {}
+        for inv in rec.inv:
+            p_ = inv["fields"].get("parent") if inv.get("fields") else None
+            if inv["uid"] is not None and p_ is not None:
+                parent[inv["uid"]] = p_
+
+        def root(u):
+            for _ in range(50):
+                p_ = parent.get(u)
+                if p_ is None or rec.emits.get(p_, {}).get("type") == "GStart":
+                    return u
+                u = p_
+            return u
+
+        # what the snapshot held for recovery lineages
+        d = rec.snapshot or {}
+        queued_lineage = 0
+        for w in d.get("workers", {}).values():
+            for q in w.get("queue", []):
+                if q.get("recovery_counts"):
+                    queued_lineage += 1
+                    if q.get("first_attempt_at") is None:
+                        r.classes.append("snap_recovery_lineage_event_queued_unstarted")
+        if queued_lineage:
+            r.classes.append("snap_recovery_lineage_event_queued")
+        # a recovery-lineage event (re-emitted by a handler: its parent is not the start event) running when the snapshot was taken
+        lineage_in_flight = False
+        for w in d.get("workers", {}).values():
+            for raw in w.get("in_progress", []):
+                try:
+                    obj = json.loads(raw)
+                    if obj.get("qualified_name", "").endswith("StepFailedEvent"):
+                        lineage_in_flight = True  # a handler invocation: its StepFailedEvent carries the lineage's recovery counts
+                        continue
+                    f = obj["value"]["_data"]
+                except Exception:  # noqa: BLE001
+                    continue
+                p_ = f.get("parent")
+                if p_ is not None and rec.emits.get(p_, {}).get("type") != "GStart":
+                    lineage_in_flight = True
+        # a retry delay being waited out at the snapshot instant (first-life body log)
+        retry_cfg = {s_["name"]: s_.get("retry") or {} for s_ in spec["steps"]}
+        snap_t = rec.snap_t
+        backoff = False
+        inv0 = [i for i in rec.inv if i["seg"] == 0]
+        for i in inv0:
+            cfg = retry_cfg.get(i["step"], {})
+            if i["exit"] == "raised" and "sfe" not in i and i["attempt"] + 1 < cfg.get("n", 1) and cfg.get("w", 0) > 0 and i["t_out"] is not None:
+                if i["t_out"] <= snap_t + 1e-9 <= i["t_out"] + cfg["w"] + 2e-9 and not any(
+                    j["step"] == i["step"] and j["uid"] == i["uid"] and j["attempt"] > i["attempt"] for j in inv0
+                ):
+                    backoff = True
+        if backoff:
+            r.classes.append("snap_retry_backoff")
+        if lineage_in_flight:
+            r.classes.append("snap_recovery_lineage_event_in_flight")
+        attrs = dict(handler_program=True, lineage_event_queued_at_snapshot=bool(queued_lineage), lineage_event_in_flight_at_snapshot=lineage_in_flight, retry_backoff_pending=backoff)
+        entries: dict = {}
+        seen_sfe = set()
+        for inv in rec.inv:
+            e = inv.get("sfe")
+            if not e:
+                continue
+            # a handler invocation that was running at the snapshot is started again after the resume: the same failure, one entry
+            ident = (inv["step"], e["step_name"], e["input_uid"])
+            if ident in seen_sfe:
+                continue
+            seen_sfe.add(ident)
+            k = (inv["step"], root(e["input_uid"]))
+            entries[k] = entries.get(k, 0) + 1
+        for (h, _rt), n in entries.items():
+            if n > handlers[h]["max_recoveries"]:
+                r.v("recovery_budget_exceeded_across_resume", handler=h, entries=n, max_recoveries=handlers[h]["max_recoveries"], **attrs)
+                break
+        if any(v >= 2 for v in entries.values()):
+            r.classes.append("lineage_reentered")
+        # the resumed run ends the way the uninterrupted one does
+        a, b = ref.outcome["kind"], rec.outcome["kind"]
+        if a != b:
+            r.v("outcome_differs_from_uninterrupted", uninterrupted=a, resumed=b, **attrs)
+        r.nontrivial = bool(entries) and any(i["seg"] > 0 for i in rec.inv if "sfe" in i) or bool(queued_lineage)
+        r.sample = {"case": case, "uninterrupted": a, "resumed": b, "handler_entries": sum(entries.values())}
+        return r
 
     # ------------------------------------------------------------------ workflow
     def _factory(self, case, rec, log):
@@ -168,6 +296,8 @@ class C12(Prop):
 
     def run_case(self, case):
         case = json.loads(json.dumps(case))
+        if "handler" in case:
+            return self.run_handler_case(case)
         r = CaseResult()
         try:
             ref, ref_log = self._run(case, None)
